@@ -52,6 +52,23 @@ RoundDivOK ==
                  /\ SDivEuclid(a, b) = <<FromVal(EDiv(x, y)), FALSE>>
                  /\ SRemEuclid(a, b) = FromVal(ERem(x, y))
                  /\ SNextMultipleOf(a, b) = <<FromVal(nm), ~SIn(nm), FALSE>>)
+\* shifts by every amount up to 4W+1 (and one huge one): the flag says rhs >= BITS, the value is the shift by rhs when in
+\* range and by rhs mod BITS when BITS is a power of two (otherwise the property leaves it open), and the unsafe internal
+\* routine is never called outside its contract
+IsP2(n) == \E k \in 0..12 : P2(k) = n
+ShiftWrapOK ==
+    \A rhs \in 0..(4 * W + 1) \cup {1021} :
+        LET l == OvShl(a, rhs)  ru == OvShrU(a, rhs)  rs == OvShrS(a, rhs)
+            inr == rhs < W
+            m == rhs % W
+        IN /\ l[2] = ~inr /\ ru[2] = ~inr /\ rs[2] = ~inr
+           /\ l[3] /\ ru[3] /\ rs[3]
+           /\ (inr \/ IsP2(W) => /\ Val(l[1]) = (Val(a) * P2(m)) % P2(W)
+                                 /\ Val(ru[1]) = Val(a) \div P2(m)
+                                 /\ SVal(rs[1]) = FloorDiv(SVal(a), P2(m)))
+           /\ CheckedShl(a, rhs) = (IF inr THEN <<TRUE, FromVal(Val(a) * P2(rhs))>> ELSE <<FALSE, Zero>>)
+           /\ Val(UnboundedShl(a, rhs)) = (IF inr THEN (Val(a) * P2(rhs)) % P2(W) ELSE 0)
+           /\ SVal(UnboundedShrS(a, rhs)) = (IF inr THEN FloorDiv(SVal(a), P2(rhs)) ELSE (IF SVal(a) < 0 THEN -1 ELSE 0))
 RECURSIVE Pop(_)
 Pop(x) == IF x = 0 THEN 0 ELSE (x % 2) + Pop(x \div 2)
 RECURSIVE Tz(_)
@@ -91,7 +108,7 @@ ConvOK ==
         /\ UFromI(a, tb) = (SVal(a) >= 0 /\ SVal(a) < P2(tb))
         /\ IFromU(a, tb) = (Val(a) < P2(tb - 1))
         /\ IFromI(a, tb) = (SVal(a) >= -P2(tb - 1) /\ SVal(a) < P2(tb - 1))
-AlgsOK == MulOK /\ MidOK /\ DivOK /\ RoundDivOK /\ CountOK /\ FmtOK /\ ConvOK
+AlgsOK == MulOK /\ MidOK /\ DivOK /\ RoundDivOK /\ ShiftWrapOK /\ CountOK /\ FmtOK /\ ConvOK
 \* vacuity probes (must be refuted): the rare paths exist at this size
 NoCarryOut == ~(\E c \in Carries : UAdd(WideningMul(a, b)[1], c)[2])          \* carrying_mul's low half overflows
 NoMinProduct == ~(SMul(a, b)[1] = MinPat /\ ~SMul(a, b)[2] /\ IsNeg(a) # IsNeg(b))   \* the product is exactly MIN
